@@ -43,16 +43,36 @@ def generate(chk, tier, seed, slices=SLICES, module="MC_Sem", label="c02"):
     return out
 
 
+def generate_mixed(chk, tier, seed, ncases=None, label="c02"):
+    """Random deep programs (grammar walk, spec/MC_SemMix.tla, TLC -simulate)."""
+    out = []
+    seen = set()
+    for steps in ((6, 9) if tier == "quick" else (5, 7, 9, 12)):
+        n = ncases or (700 if tier == "quick" else 12000)
+        path = os.path.join(vlib.workdir("tlc"), f"gen_mix_{steps}.cfg")
+        with open(path, "w") as f:
+            f.write(f"CONSTANTS Steps = {steps} Fuel = 60 RmMode = 1\nINIT Init\nNEXT Next\nINVARIANT Emit\nCHECK_DEADLOCK FALSE\n")
+        res = run_tlc("MC_SemMix", path, f"{label}_mix{steps}", workers=1, seed=seed + steps, depth=steps + 1,
+                      env={"NCASES": str(n)}, timeout=3000, coverage=False, extra=["-simulate"])
+        tlc_must_pass(res, f"mixed programs, {steps} steps")
+        chk.add_tlc(res, f"mixed slice: random walks of {steps} steps")
+        for c in res.lines("CASE"):
+            if c["src"] not in seen:
+                seen.add(c["src"])
+                out.append(("mix", c["src"], c["res"]))
+    return out
+
+
 def run(tier, seed):
     chk = Check(PROP, tier, seed)
-    chk.rule = ("closed programs of the grammar slices arith/str/lazy/func/obj/comp of spec/MC_Sem.tla "
+    chk.rule = ("closed programs of the grammar slices arith/str/lazy/func/obj/comp of spec/MC_Sem.tla and random deep programs (MC_SemMix, simulation) "
                 "(quick: seeded random subset per slice part, thorough: all); distinct = source text; "
                 "non-trivial = the specification decides the program (not outside, not fuel-exhausted)")
     chk.assumptions = ["Sem.tla is transcribed from the Jsonnet language definition; numbers restricted to "
                        "integers |n| <= 10^6 (anything else is outside the decided domain)",
                        "Pretty.tla prints fully parenthesised source text"]
     vlib.build_harness()
-    progs = generate(chk, tier, seed)
+    progs = generate(chk, tier, seed) + generate_mixed(chk, tier, seed)
     cases = [{"k": "eval", "src": src, "manifest": "multi", "max_stack": 200} for _, src, _ in progs]
     results = run_cases(cases, "c02", timeout_ms=20000)
     classes = {}
